@@ -24,6 +24,21 @@ thread_local! {
     static OBS: RefCell<Option<Weak<RefCell<ObsTable>>>> = RefCell::new(None);
     static READ_IN_CLOSURES: Cell<bool> = Cell::new(false);
     static IN_HANDLER: Cell<Option<u8>> = Cell::new(None);
+    static IN_NODE_HANDLER: Cell<bool> = Cell::new(false);
+    /// what kind of closure the injected fault fired in: 0 = node function / bind closure /
+    /// cutoff, 1 = update handler
+    static FAULT_FIRED_IN: Cell<Option<u8>> = Cell::new(None);
+}
+
+pub fn fault_fired_in() -> Option<u8> {
+    FAULT_FIRED_IN.with(|c| c.get())
+}
+pub fn clear_fault_fired() {
+    FAULT_FIRED_IN.with(|c| c.set(None));
+}
+pub fn reset_handler_flags() {
+    IN_HANDLER.with(|c| c.set(None));
+    IN_NODE_HANDLER.with(|c| c.set(false));
 }
 
 pub fn log(ev: Ev) {
@@ -70,6 +85,8 @@ pub fn enter() {
         n
     });
     if FAULT_AT.with(|c| c.get()) == Some(n) {
+        let in_handler = IN_HANDLER.with(|c| c.get()).is_some() || IN_NODE_HANDLER.with(|c| c.get());
+        FAULT_FIRED_IN.with(|c| c.set(Some(in_handler as u8)));
         panic!("injected fault at user-closure invocation {n}");
     }
     read_observers();
@@ -219,6 +236,14 @@ fn v(property: &'static str, rule: &'static str, sig: impl Into<String>, detail:
 }
 
 impl GraphWorld {
+    /// point the thread-local knobs that instrumented closures consult at this world
+    pub fn prepare_thread_locals(&self) {
+        incremental::verif_knobs::set_handler_order(self.cfg.handler_order);
+        OBS.with(|o| *o.borrow_mut() = Some(Rc::downgrade(&self.obs)));
+        READ_IN_CLOSURES.with(|c| c.set(self.prog.alpha.closures_read_observers));
+        reset_handler_flags();
+    }
+
     fn node(&self, i: u8) -> Incr<Val> {
         self.nodes[i as usize].clone().expect("harness handle dropped")
     }
@@ -429,7 +454,9 @@ impl GraphWorld {
             Act::OnUpdate(n) => {
                 let idx = self.model.node_handlers.len() as u8;
                 self.node(*n).on_update(move |u| {
+                    IN_NODE_HANDLER.with(|c| c.set(true));
                     enter();
+                    IN_NODE_HANDLER.with(|c| c.set(false));
                     let kind = match u {
                         incremental::NodeUpdate::Necessary(_) => "necessary",
                         incremental::NodeUpdate::Changed(_) => "changed",
@@ -1034,10 +1061,7 @@ impl World for GraphWorld {
     fn step(&mut self, a: &Act, check: bool) -> Vec<Violation> {
         let mut vs = vec![];
         self.explain.clear();
-        incremental::verif_knobs::set_handler_order(self.cfg.handler_order);
-        OBS.with(|o| *o.borrow_mut() = Some(Rc::downgrade(&self.obs)));
-        READ_IN_CLOSURES.with(|c| c.set(self.prog.alpha.closures_read_observers));
-        IN_HANDLER.with(|c| c.set(None));
+        self.prepare_thread_locals();
         let _ = take_log();
         let before = self.state.stats();
         let res = {
